@@ -216,7 +216,7 @@ def admissible_pairs(case):
 def gamma_of(comp, x, y):
     nn = [l for l in comp["levels"] if l["kind"] != "null"]
     for l in comp["levels"]:
-        if c02.guard(l, x[comp["col"]], y[comp["col"]]) == 1:
+        if c02.guard_values(l, x[comp["col"]], y[comp["col"]]) == 1:
             return -1 if l["kind"] == "null" else len(nn) - 1 - nn.index(l)
     return None
 
